@@ -1197,3 +1197,151 @@ Proof.
   intros t w Hw. destruct (SC t w Hw) as (A & B & C). split; auto.
   unfold single_section. rewrite (lin_ok_scope names ex T w); auto.
 Qed.
+
+(* ------------------------------------------------------------------ auto-load: one loader *)
+
+Definition al_starting (pc : al_pc) : bool :=
+  match pc with PcStartDrain | PcStartSpawn => true | _ => false end.
+
+Record al_inv (s : al_state) : Prop := {
+  ali_one : List.length (loaders s) <= 1;
+  ali_uniq : forall t1 t2, al_starting (fst (clients s t1)) = true -> al_starting (fst (clients s t2)) = true -> t1 = t2;
+  ali_excl : forall t, al_starting (fst (clients s t)) = true -> loaders s = [];
+  ali_flag : flag s = false -> loaders s = [] /\ forall t, al_starting (fst (clients s t)) = false;
+  ali_noset : forall t, fst (clients s t) <> PcStartSet
+}.
+
+Lemma al_upd_same : forall f t x, al_upd f t x t = x.
+Proof. intros. unfold al_upd. now rewrite Nat.eqb_refl. Qed.
+
+Lemma al_upd_other : forall f t x u, u <> t -> al_upd f t x u = f u.
+Proof. intros. unfold al_upd. destruct (Nat.eqb u t) eqn:E; auto. apply Nat.eqb_eq in E. contradiction. Qed.
+
+(* a client step that keeps flag and loaders, and moves t between two non-starting pcs *)
+Lemma al_inv_quiet : forall s t pc ops ch,
+  al_inv s -> al_starting (fst (clients s t)) = false -> al_starting pc = false -> pc <> PcStartSet ->
+  al_inv {| flag := flag s; chan := ch; loaders := loaders s; clients := al_upd (clients s) t (pc, ops) |}.
+Proof.
+  intros s t pc ops ch I B A NS. constructor; cbn.
+  - apply (ali_one s I).
+  - intros t1 t2 H1 H2.
+    destruct (Nat.eq_dec t1 t) as [->|N1]; [rewrite al_upd_same in H1; cbn in H1; congruence|].
+    destruct (Nat.eq_dec t2 t) as [->|N2]; [rewrite al_upd_same in H2; cbn in H2; congruence|].
+    rewrite al_upd_other in H1, H2 by auto. eapply ali_uniq; eauto.
+  - intros u H. destruct (Nat.eq_dec u t) as [->|N]; [rewrite al_upd_same in H; cbn in H; congruence|].
+    rewrite al_upd_other in H by auto. eapply ali_excl; eauto.
+  - intro F. destruct (ali_flag s I F) as (L & Q). split; auto. intro u.
+    destruct (Nat.eq_dec u t) as [->|N]; [now rewrite al_upd_same|]. rewrite al_upd_other by auto. apply Q.
+  - intro u. destruct (Nat.eq_dec u t) as [->|N]; [now rewrite al_upd_same|]. rewrite al_upd_other by auto.
+    apply (ali_noset s I).
+Qed.
+
+Lemma al_inv_client : forall v t s s',
+  v_cas v = true -> al_inv s -> al_client_step v t s = Some s' -> al_inv s'.
+Proof.
+  intros v t s s' CAS I H. unfold al_client_step in H. rewrite CAS in H.
+  destruct (clients s t) as [pc ops] eqn:E.
+  assert (Epc : fst (clients s t) = pc) by now rewrite E.
+  destruct pc.
+  - (* Idle *)
+    destruct ops as [|[|] ops]; [discriminate| |]; inversion H; subst; clear H;
+      apply al_inv_quiet; auto; try (rewrite Epc; reflexivity); discriminate.
+  - (* StartCheck *)
+    destruct (flag s) eqn:F; inversion H; subst; clear H.
+    + rewrite <- F. apply al_inv_quiet; auto; try (rewrite Epc; reflexivity); discriminate.
+    + destruct (ali_flag s I F) as (L0 & NS). constructor; cbn.
+      * apply (ali_one s I).
+      * intros t1 t2 H1 H2.
+        destruct (Nat.eq_dec t1 t) as [->|N1]; destruct (Nat.eq_dec t2 t) as [->|N2]; auto.
+        -- rewrite al_upd_other in H2 by auto. rewrite NS in H2. discriminate.
+        -- rewrite al_upd_other in H1 by auto. rewrite NS in H1. discriminate.
+        -- rewrite al_upd_other in H1 by auto. rewrite NS in H1. discriminate.
+      * intros u _. exact L0.
+      * discriminate.
+      * intro u. destruct (Nat.eq_dec u t) as [->|N]; [rewrite al_upd_same; discriminate|].
+        rewrite al_upd_other by auto. apply (ali_noset s I).
+  - (* StartSet: unreachable with CAS *)
+    exfalso. apply (ali_noset s I t). exact Epc.
+  - (* StartDrain -> StartSpawn *)
+    inversion H; subst; clear H. constructor; cbn.
+    + apply (ali_one s I).
+    + intros t1 t2 H1 H2.
+      assert (S1 : al_starting (fst (clients s t1)) = true).
+      { destruct (Nat.eq_dec t1 t) as [->|N]; [now rewrite Epc|]. now rewrite al_upd_other in H1 by auto. }
+      assert (S2 : al_starting (fst (clients s t2)) = true).
+      { destruct (Nat.eq_dec t2 t) as [->|N]; [now rewrite Epc|]. now rewrite al_upd_other in H2 by auto. }
+      eapply ali_uniq; eauto.
+    + intros u _. apply (ali_excl s I t). now rewrite Epc.
+    + intro F. destruct (ali_flag s I F) as (_ & NS). specialize (NS t). rewrite Epc in NS. discriminate.
+    + intro u. destruct (Nat.eq_dec u t) as [->|N]; [rewrite al_upd_same; discriminate|].
+      rewrite al_upd_other by auto. apply (ali_noset s I).
+  - (* StartSpawn -> Idle, one more loader *)
+    inversion H; subst; clear H.
+    assert (L0 : loaders s = []) by (apply (ali_excl s I t); now rewrite Epc).
+    assert (ONLY : forall u, u <> t -> al_starting (fst (clients s u)) = false).
+    { intros u N. destruct (al_starting (fst (clients s u))) eqn:Su; auto. exfalso. apply N.
+      eapply ali_uniq; eauto. now rewrite Epc. }
+    constructor; cbn.
+    + rewrite L0. cbn. lia.
+    + intros t1 t2 H1 H2. exfalso.
+      destruct (Nat.eq_dec t1 t) as [->|N]; [rewrite al_upd_same in H1; discriminate|].
+      rewrite al_upd_other in H1 by auto. rewrite ONLY in H1 by auto. discriminate.
+    + intros u Hu. exfalso.
+      destruct (Nat.eq_dec u t) as [->|N]; [rewrite al_upd_same in Hu; discriminate|].
+      rewrite al_upd_other in Hu by auto. rewrite ONLY in Hu by auto. discriminate.
+    + intro F. destruct (ali_flag s I F) as (_ & NS). specialize (NS t). rewrite Epc in NS. discriminate.
+    + intro u. destruct (Nat.eq_dec u t) as [->|N]; [rewrite al_upd_same; discriminate|].
+      rewrite al_upd_other by auto. apply (ali_noset s I).
+  - (* StopCheck *)
+    destruct (flag s) eqn:F; inversion H; subst; clear H; rewrite <- F;
+      apply al_inv_quiet; auto; try (rewrite Epc; reflexivity); discriminate.
+  - (* StopSend *)
+    destruct (chan s) eqn:C.
+    + inversion H; subst; clear H. apply al_inv_quiet; auto; try (rewrite Epc; reflexivity); discriminate.
+    + destruct (v_nonblocking_send v); [|discriminate]. inversion H; subst; clear H.
+      rewrite <- C. apply al_inv_quiet; auto; try (rewrite Epc; reflexivity); discriminate.
+Qed.
+
+Lemma al_inv_loader : forall i s s', al_inv s -> al_loader_step i s = Some s' -> al_inv s'.
+Proof.
+  intros i s s' I H. unfold al_loader_step in H.
+  destruct (nth_error (loaders s) i) as [ld|] eqn:E; [|discriminate].
+  pose proof (ali_one s I) as ONE.
+  assert (SH : exists x, loaders s = [x] /\ i = 0).
+  { destruct (loaders s) as [|x [|y r]] eqn:L; cbn in ONE.
+    - destruct i; discriminate.
+    - exists x. split; auto. destruct i as [|[|i]]; auto; discriminate.
+    - lia. }
+  destruct SH as (x & L & ->). rewrite L in E. cbn in E. inversion E; subst x. clear E.
+  assert (NOSTART : forall t, al_starting (fst (clients s t)) = false).
+  { intro t. destruct (al_starting (fst (clients s t))) eqn:S; auto.
+    rewrite (ali_excl s I t S) in L. discriminate. }
+  assert (FL : flag s = true).
+  { destruct (flag s) eqn:F; auto. destruct (ali_flag s I F) as (L0 & _). rewrite L0 in L. discriminate. }
+  destruct ld.
+  - destruct (chan s) as [|n] eqn:C; [discriminate|]. inversion H; subst; clear H. rewrite L. cbn.
+    constructor; cbn.
+    + lia.
+    + intros t1 t2 H1. rewrite NOSTART in H1. discriminate.
+    + intros t H1. rewrite NOSTART in H1. discriminate.
+    + intro F. congruence.
+    + apply (ali_noset s I).
+  - inversion H; subst; clear H. rewrite L. cbn. constructor; cbn.
+    + lia.
+    + intros t1 t2 H1. rewrite NOSTART in H1. discriminate.
+    + intros t H1. rewrite NOSTART in H1. discriminate.
+    + intros _. split; auto.
+    + apply (ali_noset s I).
+Qed.
+
+(* With CompareAndSwap in StartAutoLoadPolicy there is never more than one loader goroutine,
+   whatever mix of Start / Stop calls any number of threads make. *)
+Theorem at_most_one_loader : forall v prog s,
+  v_cas v = true -> al_reachable v (al_init prog) s -> List.length (loaders s) <= 1.
+Proof.
+  intros v prog s CAS H. apply ali_one. induction H.
+  - constructor; cbn; auto; try discriminate.
+  - destruct a as [t | i]; cbn in H0.
+    + eapply al_inv_client; eauto.
+    + eapply al_inv_loader; eauto.
+Qed.
